@@ -1,7 +1,7 @@
 (* C19 (a) -- Pluecker lines: constructors, Pluecker constraint, incidence of the defining points, principal point,
    point(lam), closest(x).
    Statements are fixed; the tr_* / pc_* definitions are regenerated from /repo/spatialmath/geom3d.py on every run (the
-   library itself executed on symbols; pc_* are the comparisons the code made on the traced path: test <-> 0 < pc).
+   library itself executed on symbols; pc_* are the comparisons the code made on the traced path: a strict test <-> 0 < pc, a non-strict one (unitvec: n >= 10 eps) <-> 0 <= pc).
    Conventions of the code (proved below): a line is the 6-vector (v, w), w its direction, v = w x (point on the line);
    x lies on the line iff  w x x = v. *)
 From Coq Require Import Reals ZArith Lra Lia Nsatz Psatz.
@@ -61,6 +61,11 @@ Ltac pos_sqrt :=
       | _ : 0 < s |- _ => fail
       | _ => assert (0 < s) by lra; assert (e <> 0) by nra
       end
+  | H : 0 <= _ + ?s, Hss : ?s * ?s = ?e |- _ =>
+      lazymatch goal with
+      | _ : 0 < s |- _ => fail
+      | _ => assert (0 < s) by lra; assert (e <> 0) by nra
+      end
   end.
 
 Definition plane_res (a : V4 R) (x : V3 R) : R := let '(a0,a1,a2,a3) := a in let '(x0,x1,x2) := x in a0*x0 + a1*x1 + a2*x2 + a3.
@@ -115,7 +120,7 @@ Qed.
 Print Assumptions C19_contains_defining_points.
 
 (* 5. a line built from two planes lies in both planes *)
-Theorem C19_planes_line_in_planes : forall (a b : V4 R) (k : R), 0 < pc_point_0 Rops (tr_Planes Rops a b) k ->
+Theorem C19_planes_line_in_planes : forall (a b : V4 R) (k : R), 0 <= pc_point_0 Rops (tr_Planes Rops a b) k ->
   plane_res a (tr_point Rops (tr_Planes Rops a b) k) = 0 /\ plane_res b (tr_point Rops (tr_Planes Rops a b) k) = 0.
 Proof.
   intros a b k H; destruct_tuples; unf2. abs_sqrt. pos_sqrt. abs_inv. split; nsatz.
@@ -155,14 +160,14 @@ Qed.
 Print Assumptions C19_ppd_is_norm_pp.
 
 (* 7. point(lam): unit-speed parametrisation starting at the principal point; on the line *)
-Theorem C19_point_param : forall (L : V6 R) (k : R), 0 < pc_point_0 Rops L k ->
+Theorem C19_point_param : forall (L : V6 R) (k : R), 0 <= pc_point_0 Rops L k ->
   tr_point Rops L k = vadd3 Rops (tr_pp Rops L) (vscale3 Rops (k / sqrt (normsq3 Rops (lw L))) (lw L)).
 Proof.
   intros L k H; destruct_tuples; unf. abs_sqrt. pos_sqrt. tuple_eq ltac:(fld).
 Qed.
 Print Assumptions C19_point_param.
 
-Theorem C19_point_on_line : forall (L : V6 R) (k : R), 0 < pc_point_0 Rops L k -> is_line L ->
+Theorem C19_point_on_line : forall (L : V6 R) (k : R), 0 <= pc_point_0 Rops L k -> is_line L ->
   cross3 Rops (lw L) (tr_point Rops L k) = lv L /\ normsq3 Rops (vsub3 Rops (tr_point Rops L k) (tr_pp Rops L)) = k * k.
 Proof.
   intros L k H HL; destruct_tuples; unf. abs_sqrt. pos_sqrt. abs_inv. split; [tuple_eq ltac:(nsz) | nsz].
@@ -170,7 +175,7 @@ Qed.
 Print Assumptions C19_point_on_line.
 
 (* 8. closest(x): orthogonal projection, with the reported distance and parameter *)
-Theorem C19_closest_is_projection : forall (L : V6 R) (x : V3 R), 0 < pc_closest_0 Rops L x ->
+Theorem C19_closest_is_projection : forall (L : V6 R) (x : V3 R), 0 <= pc_closest_0 Rops L x ->
   let p := tr_closest_p Rops L x in let lam := tr_closest_lam Rops L x in let d := tr_closest_d Rops L x in
   p = tr_point Rops L lam /\ lam = dot3 Rops (vsub3 Rops x (tr_pp Rops L)) (lw L) / sqrt (normsq3 Rops (lw L)) /\ dot3 Rops (vsub3 Rops x p) (lw L) = 0 /\ d = sqrt (normsq3 Rops (vsub3 Rops x p)).
 Proof.
@@ -182,7 +187,7 @@ Proof.
 Qed.
 Print Assumptions C19_closest_is_projection.
 
-Theorem C19_closest_minimal : forall (L : V6 R) (x : V3 R) (k : R), 0 < pc_closest_0 Rops L x ->
+Theorem C19_closest_minimal : forall (L : V6 R) (x : V3 R) (k : R), 0 <= pc_closest_0 Rops L x ->
   let p := tr_closest_p Rops L x in let lam := tr_closest_lam Rops L x in
   normsq3 Rops (vsub3 Rops x (tr_point Rops L k)) = normsq3 Rops (vsub3 Rops x p) + (k - lam) * (k - lam) /\ normsq3 Rops (vsub3 Rops x p) <= normsq3 Rops (vsub3 Rops x (tr_point Rops L k)).
 Proof.
@@ -194,9 +199,9 @@ Print Assumptions C19_closest_minimal.
 (* non-vacuity: the line through (0,0,1) along x, a point off it, two non-parallel planes *)
 Example C19_a_nonvacuous :
   let L := (0, -1, 0, 1, 0, 0) in
-  is_line L /\ normsq3 Rops (lw L) <> 0 /\ 0 < pc_point_0 Rops L 2 /\ 0 < pc_closest_0 Rops L (1,2,3) /\
+  is_line L /\ normsq3 Rops (lw L) <> 0 /\ 0 <= pc_point_0 Rops L 2 /\ 0 <= pc_closest_0 Rops L (1,2,3) /\
   cross3 Rops (lw L) (5,0,1) = lv L /\ tr_pp Rops L = (0,0,1) /\
-  0 < pc_point_0 Rops (tr_Planes Rops (1,0,0,-1) (0,1,0,-2)) 3 /\
+  0 <= pc_point_0 Rops (tr_Planes Rops (1,0,0,-1) (0,1,0,-2)) 3 /\
   normsq3 Rops (vsub3 Rops (1,2,3) (4,-1,2)) <> 0.
 Proof.
   unf. replace (1*1+0*0+0*0) with 1 by ring.
